@@ -48,6 +48,7 @@ type Contract struct {
 	Safety   map[string]bool // explicit enable/disable of safety obligation kinds
 	Callback map[string][]Clause
 	CallbackPre map[string][]Clause
+	Before   map[string][]Clause // call-site obligations: before CALLEE requires E
 	Opaque   []string // callee names whose effects are ignored (pure/no effect on modelled state)
 	Pure     bool     // function has no effect on modelled heap (implies modifies nothing)
 	Timeout  int      // per-obligation solver time limit override (seconds)
@@ -150,7 +151,7 @@ func (cs *ContractSet) ParseContractText(file, pkgPath, pkgName, text string) {
 		}
 		switch kw {
 		case "func":
-			cur = &Contract{Key: rest, PkgPath: pkgPath, File: file, Line: rl.line, Loops: map[int]*LoopSpec{}, Safety: map[string]bool{}, Callback: map[string][]Clause{}, CallbackPre: map[string][]Clause{}, Arith: "int", Floats: "fp"}
+			cur = &Contract{Key: rest, PkgPath: pkgPath, File: file, Line: rl.line, Loops: map[int]*LoopSpec{}, Safety: map[string]bool{}, Callback: map[string][]Clause{}, CallbackPre: map[string][]Clause{}, Before: map[string][]Clause{}, Arith: "int", Floats: "fp"}
 			curLemma, curSpec = nil, nil
 			k := pkgPath + "::" + rest
 			if _, dup := cs.Funcs[k]; dup {
@@ -367,6 +368,20 @@ func (cs *ContractSet) ParseContractText(file, pkgPath, pkgName, text string) {
 						cur.Safety[strings.TrimPrefix(k, "+")] = true
 					}
 				}
+			}
+		case "before":
+			// before CALLEE requires E
+			if cur == nil {
+				cs.errf(file, rl.line, "before outside func")
+				continue
+			}
+			f := strings.SplitN(rest, " ", 3)
+			if len(f) < 3 || f[1] != "requires" {
+				cs.errf(file, rl.line, "bad clause (want: before CALLEE requires E)")
+				continue
+			}
+			if c, ok := mkClause(f[2]); ok {
+				cur.Before[f[0]] = append(cur.Before[f[0]], c)
 			}
 		case "callback":
 			// callback NAME ensures E   |  callback NAME requires E
